@@ -3,7 +3,7 @@
 Require Extraction.
 Require Import ExtrOcamlBasic.
 From Coq Require Import NArith ZArith List.
-From VT Require Import Gen.Constants Base.Outcome Model.Cache Model.BBox Model.Pipeline Model.Stream Model.FileIO Model.Recompress Model.Http Model.StaticPath Model.Json Model.VPL.
+From VT Require Import Gen.Constants Base.Outcome Model.Cache Model.BBox Model.Pipeline Model.Stream Model.FileIO Model.Recompress Model.Http Model.StaticPath Model.Json Model.VPL Model.MVT.
 Extraction Blacklist String List Nat Int Char.
 Set Extraction KeepSingleton.
 Extraction "../ocaml/model.ml"
@@ -17,6 +17,8 @@ Extraction "../ocaml/model.ml"
   Constants.tile_path_variant Constants.static_guard_variant Http.status StaticPath.served StaticPath.components StaticPath.names StaticPath.request_url
   Constants.json_hex_variant Json.quote Json.parse_string Json.parse_json Json.stringify
   Constants.vpl_empty_variant VPL.parse_vpl
+  Constants.mvt_table_variant Constants.zigzag_variant MVT.decode_tile MVT.encode_tile MVT.merge_tiles MVT.decode_tags
+  MVT.write_varint MVT.read_varint MVT.zz_enc MVT.zz_dec
   Recompress.recompressor Recompress.optimize Recompress.compress Recompress.framed Recompress.process
   Cache.run Cache.empty
   BBox.new BBox.new_full BBox.new_empty BBox.is_empty BBox.width BBox.height BBox.count_tiles BBox.contains2 BBox.contains3
